@@ -22,7 +22,8 @@ TEMPLATES = {
  'loop-condition-re-evaluated': ('X is 9001\nWhile X\nsay X\nKnock X down\n\nsay "end"\n', {'n1': {'lo': 0, 'hi': 3, 'integral': True}}),
  'condition-kinds': ('If "§1"\nsay 1\n\nIf null\nsay 2\n\nIf mysterious\nsay 3\n\nIf 9001 is 9002\nsay 4\nElse\nsay 5\n', {'n1': {}, 'n2': {}, 's1': {}}),
 }
-BOUNDS = {'condition kinds': 'X of every kind {mysterious, null, boolean, number, string, empty string, array, empty array} as the whole condition (plain and negated) of if / if-else / while / until',
+BOUNDS = {'top-level blocks': 'every program of <= 3 (thorough 4) statements with a blank line (a new top-level block) at one or at every top-level boundary, and one before the final marker',
+          'condition kinds': 'X of every kind {mysterious, null, boolean, number, string, empty string, array, empty array} as the whole condition (plain and negated) of if / if-else / while / until',
           'generated programs': 'EVERY program of the grammar  Block ::= Stmt{0..3};  Stmt ::= say <marker> | <runtime error> | If c Block [Else Block] | While/Until <2 iterations> Block | Break | Continue (inside loops)  with at most 4 statements (thorough 5), nesting <= 3, empty blocks included, every condition a symbolic placeholder (outside loops: any double; inside loops: compared with the loop counter)',
           'programs': 'plus the %d templates of this file (if / else, nested ifs, while, until, break / continue directly and from nested ifs, nested loops, errors inside branches and loops), parsed by the real parser' % len(TEMPLATES),
           'values': 'every number placeholder is any double (conditions) or any double in the stated range (loop bounds, <= 4 iterations); string placeholders are any string',
@@ -77,6 +78,8 @@ def jobs(ctx, tier):
     js = [Job(f'template/{n}', h_template, (mir, n), witness=['run-done'], fuel=20_000_000, weight=5) for n in TEMPLATES]
     from ..progen import condition_kind_shapes
     js += shape_jobs(mir, preparse(ctx, condition_kind_shapes()), 'condition-kinds', chunk=2)
+    from ..progen import multi_block_shapes
+    js += shape_jobs(mir, preparse(ctx, multi_block_shapes(3 if tier == 'quick' else 4)), 'multi-block', chunk=24)
     if tier == 'quick': return js + shape_jobs(mir, preparse(ctx, control_flow_shapes(4)), 'shapes<=4', chunk=24)
     # (all 6-statement programs without until / error statements were run once: 101 000 programs, 2 h on this machine, held; not part of the tier)
     return js + shape_jobs(mir, preparse(ctx, control_flow_shapes(5)), 'shapes<=5', chunk=48)
